@@ -141,7 +141,9 @@ impl<'l> PktParser<'l> {
                     domainv.push(dnspkt::Label::from(self.get_bytes(prefix as usize)?));
                 }
                 offset_high if offset_high & 0b1100_0000 == 0b1100_0000 => {
-                    if depth > 10 {
+                    /* A name erbium compresses needs at most one pointer per label, and a
+                     * name has at most 127 labels. */
+                    if depth > 127 {
                         return Err("Compression Corruption".into());
                     }
                     // Compressed label.
